@@ -257,4 +257,34 @@ theorem connLoop_spec (handler : List UInt8 → Option (List UInt8)) :
       subst he
       simp [deframe_incomplete hno, respond, endOf]
 
+theorem lenPrefix_frame (m rest : List UInt8) (h : m.length ≤ 65535) :
+    lenPrefix (QV.Spec.Framing.frame m ++ rest) = some m.length := by
+  unfold QV.Spec.Framing.frame lenPrefix
+  simp only [List.cons_append]
+  congr 1
+  have h1 : (UInt8.ofNat (m.length / 256)).toNat = m.length / 256 := by
+    rw [UInt8.toNat_ofNat']; omega
+  have h2 : (UInt8.ofNat (m.length % 256)).toNat = m.length % 256 := by
+    rw [UInt8.toNat_ofNat']; omega
+  rw [h1, h2]; omega
+
+/-- the stream of correctly framed messages decodes to exactly those messages, in order -/
+theorem deframe_frames (msgs : List (List UInt8)) (tail : List UInt8) (h : ∀ m ∈ msgs, m.length ≤ 65535) :
+    deframe (msgs.flatMap QV.Spec.Framing.frame ++ tail) = (msgs ++ (deframe tail).1, (deframe tail).2) := by
+  induction msgs with
+  | nil => simp
+  | cons m ms ih =>
+    have hm := h m (by simp)
+    have hp := lenPrefix_frame m (ms.flatMap QV.Spec.Framing.frame ++ tail) hm
+    have e : (m :: ms).flatMap QV.Spec.Framing.frame ++ tail =
+        QV.Spec.Framing.frame m ++ (ms.flatMap QV.Spec.Framing.frame ++ tail) := by simp
+    rw [e, deframe_complete hp (by simp [QV.Spec.Framing.frame])]
+    have d2 : (QV.Spec.Framing.frame m ++ (ms.flatMap QV.Spec.Framing.frame ++ tail)).drop (m.length + 2) =
+        ms.flatMap QV.Spec.Framing.frame ++ tail := by
+      simp [QV.Spec.Framing.frame]
+    have d1 : ((QV.Spec.Framing.frame m ++ (ms.flatMap QV.Spec.Framing.frame ++ tail)).drop 2).take m.length = m := by
+      simp [QV.Spec.Framing.frame]
+    rw [d1, d2, ih (fun x hx => h x (by simp [hx]))]
+    simp
+
 end QV.Framing
